@@ -8,14 +8,16 @@
    programs without isolate, multiset mirror at quiescence for connect/try_connect/query programs, agreement of the two
    semantics. REFUTED (c17_refuted_*, concrete schedules by vm_compute, each reproduced on the implementation): the full
    property — no panic, serialisable outcome — which fails because every mutation is two or more separately locked critical
-   sections (D11). These are the known findings of KNOWN_FINDINGS.txt. Serialisability is claimed only by the two BOUNDED
+   sections (D11). These are the known findings of KNOWN_FINDINGS.txt. Serialisability is PROVED without bounds for one
+   fragment (c17_forest_connects_serialisable: single-connect threads whose connects form a forest over the adjacency lists —
+   exactly the complement, within that fragment, of the eighth known-finding class) and otherwise claimed only by the two BOUNDED
    theorems (a finite space swept inside Coq by vm_compute and lifted with forallb_forall, the bound stated in the theorem):
    outside the classes of ConcClass.known_class every schedule of every two-thread single-call scenario on two nodes is
    serialisable; no theorem claims it for unbounded scenarios, and c17_refuted_cycle shows why one must not. *)
 From Coq Require Import Permutation.
 From Gdsl.Model Require Import Spec Conc.
 From Gdsl.Model Require Import ConcClass.
-From Gdsl.Proofs Require Import ConcProof ConcCycle ConcClassProof.
+From Gdsl.Proofs Require Import ConcProof ConcCycle ConcClassProof ConcForest.
 
 (* in every reachable configuration a thread holds at most one guard, and only for the critical section it is parked at *)
 Theorem c17_one_guard_per_thread :
@@ -91,6 +93,40 @@ Theorem c17_atomic_refines_guards :
          greach keqb directed (ginit keqb directed h progs) g /\ gc_cfg g = c /\ gc_held g = [].
 Proof. exact cstep_refines_gstep. Qed.
 Print Assumptions c17_atomic_refines_guards.
+
+(* UNBOUNDED (every heap, any number of threads, every schedule, both flavours): threads that each make one connect, whose connects form a FOREST when seen as edges between the two adjacency lists they append to (prune .. = []): once all threads are done, every adjacency list — order included — and every result equal those of SOME sequential order of the same calls *)
+Theorem c17_forest_connects_serialisable :
+  forall (K V E : Type) (keqb : K -> K -> bool) (directed : bool) (h : heap K V E)
+         (threads : list (list (call K E))) (fuel : nat) (sched : list nat) (n sfuel : nat),
+       single_connects K E threads ->
+       prune n (thread_connects threads) = [] ->
+       let c := fst (run_sched keqb directed fuel (init_config keqb directed h threads) sched []) in
+       all_done c = true ->
+       exists p : list (call K E),
+         Permutation p (concat threads) /\
+         (2 * length p <= sfuel ->
+          let c' := fst (run_sched keqb directed sfuel (init_config keqb directed h [p]) [] []) in
+          all_done c' = true /\
+          (forall w : nat, outs (c_heap c) w = outs (c_heap c') w /\ ins (c_heap c) w = ins (c_heap c') w) /\
+          (forall t : thread K V E, In t (c_threads c) -> t_results t = [RO OkU]) /\
+          (forall t : thread K V E, In t (c_threads c') -> t_results t = map (fun _ : call K E => RO OkU) p)).
+Proof. exact forest_connects_serialisable_strong. Qed.
+Print Assumptions c17_forest_connects_serialisable.
+
+(* the forest hypothesis cannot be dropped: the four connects of c17_refuted_cycle are single connects, do not prune, and no sequential order reproduces the lists their schedule ends in *)
+Theorem c17_forest_hypothesis_needed :
+  single_connects nat nat cyc_progs /\
+       prune (length (thread_connects cyc_progs)) (thread_connects cyc_progs) = thread_connects cyc_progs /\
+       thread_connects cyc_progs <> [] /\
+       (let c := fst (run_sched Nat.eqb true 100 (init_config Nat.eqb true heap2 cyc_progs) cyc_sched []) in
+        all_done c = true /\
+        (forall p : list (call nat nat),
+         Permutation p (concat cyc_progs) ->
+         let c' := fst (run_sched Nat.eqb true (S (4 * length p)) (init_config Nat.eqb true heap2 [p]) [] [])
+           in
+         ~ (forall w : nat, outs (c_heap c) w = outs (c_heap c') w /\ ins (c_heap c) w = ins (c_heap c') w))).
+Proof. exact forest_hypothesis_needed. Qed.
+Print Assumptions c17_forest_hypothesis_needed.
 
 (* BOUNDED (finite space, the bound is in the statement; not the unbounded property): every scenario of the space small_scenarios (2 nodes, every initial edge list of length <= 2, two threads with one call each out of all 28/24 calls) that is outside the known-finding classes: every maximal schedule ends with no panic, no poisoned lock, all threads done, and the outcome (results, final lists) of a serial schedule *)
 Theorem c17_small_outside_classes_serialisable :
